@@ -85,6 +85,7 @@ type c12Case struct {
 	Chunking string `json:"chunking"` // all-splits | random | default
 	CT       string `json:"contentType"`
 	Members  int    `json:"gzipMembers,omitempty"` // > 1: the gzip body consists of several concatenated members
+	Nego     bool   `json:"negotiates,omitempty"`  // the target picks the content coding from Accept-Encoding (deflate first, then gzip)
 }
 
 func c12Cases(tier string) []c12Case {
@@ -129,6 +130,16 @@ func c12Cases(tier string) []c12Case {
 				}
 				cs = append(cs, c12Case{Shape: si, Name: sh.Name, Gzip: true, Mode: mode, Assigned: mem == 2, Chunking: "random", CT: cts[0], Members: mem})
 			}
+		}
+	}
+	// targets that choose the content coding from what the request offers (deflate before gzip, as some servers
+	// do): whatever the proxy offers, Prometheus gets the decompressed bytes
+	for si, sh := range c12Shapes {
+		if sh.Name == "8MiB" && tier != "thorough" {
+			continue
+		}
+		for _, mode := range []string{"direct", "tcp"} {
+			cs = append(cs, c12Case{Shape: si, Name: sh.Name, Gzip: true, Mode: mode, Assigned: si%2 == 0, Chunking: "random", CT: cts[si%3], Nego: true})
 		}
 	}
 	return cs
@@ -317,7 +328,7 @@ func runC12(w *core.WorkerCtx, idx int) *core.CaseResult {
 	}
 	c := cs[idx]
 	r := core.NewRng(w.Seed, 0xC12, uint64(idx))
-	res := &core.CaseResult{Sig: fmt.Sprintf("%s|gz%v/%d|%s|asg%v|short%d|%s", c.Name, c.Gzip, c.Members, c.Mode, c.Assigned, c.Short, c.Chunking), Nontrivial: true}
+	res := &core.CaseResult{Sig: fmt.Sprintf("%s|gz%v/%d|%s|asg%v|short%d|%s|nego%v", c.Name, c.Gzip, c.Members, c.Mode, c.Assigned, c.Short, c.Chunking, c.Nego), Nontrivial: true}
 	dir := filepath.Join(w.Scratch, fmt.Sprintf("c12-%d", idx))
 	rg, err := newRig(dir, rigLongTimeout, "")
 	if err != nil {
@@ -337,7 +348,7 @@ func runC12(w *core.WorkerCtx, idx int) *core.CaseResult {
 	}
 	body := c12Shapes[c.Shape].Make(r)
 	host := fmt.Sprintf("t%d.example:9100", h)
-	base := &bodyScript{Body: body, Gzip: c.Gzip, ContentType: c.CT, Members: c.Members}
+	base := &bodyScript{Body: body, Gzip: c.Gzip, ContentType: c.CT, Members: c.Members, Negotiate: c.Nego}
 	if c.CT == "" {
 		base.ContentType = "text/plain"
 	}
@@ -439,6 +450,7 @@ func init() {
 		Rule: "case = payload shape {empty, one line, no trailing newline, only newlines, comments/blanks, lines the statistics parser rejects (incl. binary), CRLF/unicode, generated, one line of 256 KiB-1, a newline exactly on the 64 KiB block boundary, 1 MiB, 8 MiB} x {identity, gzip} x Prometheus side {instrumented ResponseWriter with short writes of 1/7/4096 bytes, real net/http hop} x {assigned, not assigned to this shard} x chunking {every 2-way split point of the wire bytes + byte-by-byte, seed-determined random read sizes 1 B..128 KiB} x three content types; " +
 			"plus 12 cases in which 8 targets with different payloads/encodings are scraped concurrently through one proxy over a real HTTP hop, three rounds each, plus four rendezvous pairs of gzip scrapes whose harness-owned ResponseWriters hold both scrapes between the request to the target and the streaming of the body; oracle = byte equality of what Prometheus received with the target's body after decompression, status 200, same Content-Type; runs from the -race binary (the parser calls back concurrently); " +
 			"plus, in each of those 12 cases, two scrapes during which the administrative stop is lifted / set while the real request is held in the harness transport: a complete 200 response must carry the target's bytes; " +
+			"plus, per shape, targets that pick the content coding from the request's Accept-Encoding (deflate if offered, else gzip, else identity); " +
 			"plus 3/12 cases on the REAL sidecar process (proxy started by Proxy.Run) with a loopback target whose header, tail or parts of a 200-300 KB body arrive over 11-31 s (scrape_timeout 120 s); " +
 			"non-trivial = every case; distinct = (shape, encoding, mode, assigned, short-write size, chunking)",
 		Assumptions:   []string{"targets are in-memory http.RoundTrippers installed in JobInfo.Cli; gzip bodies are produced with compress/gzip at default level"},
